@@ -5,6 +5,19 @@ import Knut.Basic.AMap
 -/
 namespace Knut
 
+/-- `syntax.Booking` with parsed fields -/
+structure Booking where
+  credit : Account
+  debit : Account
+  quantity : Rat
+  commodity : Commodity
+  deriving DecidableEq, Repr, Inhabited
+
+/-- `transaction.Create` without an accrual annotation: every booking becomes a posting pair -/
+def Transaction.ofBookings (date : Int) (desc : String) (targets : Option (List Commodity)) (bks : List Booking) : Transaction :=
+  { date := date, description := desc, targets := targets,
+    postings := bks.flatMap (fun b => postingBuild b.credit b.debit b.commodity b.quantity) }
+
 structure Price where
   date : Int
   commodity : Commodity
